@@ -310,3 +310,28 @@ pub fn alphabet_long_ranges() -> Vec<Op> {
     all.date = ymd(2022, 7, 1);
     vec![Op::Rng(isna, 400), Op::Rng(mwl_s, 330), Op::Rng(all, 62), Op::Dt(single)]
 }
+
+/// thorough tier: every policy (nearest latitude with two substitutes) x every method at the high-latitude base
+pub fn alphabet_policy_full() -> Vec<Op> {
+    let b = base_high();
+    let mut v = vec![Op::Dt(b.clone())];
+    let mut pols = policies14(48.5);
+    pols.push(ExtremeLatitudeMethod::None);
+    pols.push(ExtremeLatitudeMethod::NearestLatitudeFajrIshaAlways(lat_of(-30.0)));
+    for p in pols {
+        let mut c = b.clone();
+        c.params.extreme_latitude_method = p;
+        v.push(Op::Dt(c));
+    }
+    for m in METHODS9 {
+        let mut c = b.clone();
+        c.params = Params::new(m);
+        v.push(Op::Dt(c));
+    }
+    for r in [RoundSeconds::None, RoundSeconds::NormalRounding, RoundSeconds::AggressiveRounding] {
+        let mut c = b.clone();
+        c.params.round_seconds = r;
+        v.push(Op::Dt(c));
+    }
+    v
+}
